@@ -229,4 +229,17 @@ func genC16(e *emitter, tier string, seed uint64) {
 		e.run("C16.out", n, sc)
 		e.run("C16.utxo", n, sc)
 	}
+	// scripts whose parts are awkward for the asm field of the node dialect: zero-length PUSHDATA forms, truncated
+	// pushes, data scripts with short numbers
+	for _, sc := range []string{"4c00", "4d0000", "4e00000000", "006a04746573744c00", "76a94c0088ac", "6a4c00", "514d0000ae", "4c", "4d01", "4e010000", "006a0100", "6a02ffff", "00"} {
+		tx := genTx(r, 1, 1, false)
+		tx.Outputs[0].Satoshis %= 2100000000000001
+		tx.Outputs[0].LockingScript = scr(mustHex(sc))
+		e.run("C16.tx", descTx(tx))
+		tx.Inputs[0].UnlockingScript = scr(mustHex(sc))
+		e.run("C16.tx", descTx(tx))
+		e.run("C16.out", "1234", sc)
+		e.run("C16.utxo", "1234", sc)
+		e.note("script.awkward-asm")
+	}
 }
